@@ -37,11 +37,21 @@ class _Continue(Exception):
     pass
 
 
+class CutPoint(Exception):
+    """Execution reached a statement the scenario asked to stop at (an intermediate assertion point): carries the statement and the
+    environment of the frame, so that obligations can be stated over the local variables as they are just before the statement."""
+
+    def __init__(self, st, env):
+        super().__init__('cut point')
+        self.st, self.env = st, env
+
+
 class Env:
-    __slots__ = ('vars', 'parent', 'module', 'nonlocals', 'globals_', 'cls', 'self_obj')
+    __slots__ = ('vars', 'parent', 'module', 'nonlocals', 'globals_', 'cls', 'self_obj', '_born')
 
     def __init__(self, module, parent=None, cls=None, self_obj=None):
         self.vars = {}
+        self._born = core._clock()
         self.parent = parent
         self.module = module
         self.nonlocals = set()
@@ -288,6 +298,7 @@ class Interp:
         self.call_depth = 0
         self.builtins = self._make_builtins()
         self.fuc_seen: dict[str, dict] = {}
+        self.cut_points: list = []                # statements (AST nodes) at which execution stops with CutPoint
 
     # ---------------------------------------------------------------- modules
     def module(self, name) -> ModuleInfo:
@@ -795,6 +806,8 @@ class Interp:
             self.exec_stmt(st, env)
 
     def exec_stmt(self, st, env: Env):
+        if self.cut_points and any(st is t for t in self.cut_points):
+            raise CutPoint(st, env)
         m = getattr(self, 'st_' + type(st).__name__, None)
         if m is None:
             raise Unsupported(f'statement {type(st).__name__} (line {getattr(st, "lineno", "?")} of {env.module.name})')
@@ -976,6 +989,8 @@ class Interp:
         c = core.ctx()
         if c.branch(core.zint(seq.length) == 0):
             return          # no iteration at all: the code after the loop is explored for the empty sequence on its own path
+        c.solver.push()
+        pc0 = len(c.pc)              # everything assumed from here to the end of the body is about the arbitrary iteration
         k = c.fresh_int('iter')
         c.assume(k >= 0)
         c.assume(k < seq.length)
@@ -1008,12 +1023,18 @@ class Interp:
                 raise Unsupported('break in a loop over a sequence of symbolic length')
         finally:
             c.foreach_stack.pop()
+        # What was learnt about the arbitrary iteration k stays with its record, not with the path: the code after the loop runs for
+        # every sequence, not only for those that have an iteration of this kind (the frame condition makes the state after the loop
+        # independent of the iteration explored).
+        learnt = list(c.pc[pc0:])
+        c.solver.pop()
+        del c.pc[pc0:]
         sub = c.events[n0:]
         del c.events[n0:]
-        c.event('foreach', it, k, sub)
+        c.event('foreach', it, k, sub, learnt)
         # COLLECT: what this arbitrary iteration appended to lists that existed before the loop
         for lst, items in frame.collected.values():
-            chunk = core.Collected(it, k, items)
+            chunk = core.Collected(it, k, items, learnt)
             outer = c.foreach_stack[-1] if c.foreach_stack else None
             if outer is not None and lst._born < outer.start_clock:
                 outer.collect(lst, chunk)
@@ -1123,11 +1144,13 @@ class Interp:
 
     def assign_name(self, name, v, env: Env):
         if name in env.globals_:
+            core.foreach_guard(0, f'assignment to the global {name!r}')
             env.module.env[name] = v
         elif name in env.nonlocals:
             sc = env.find_scope(name)
             if sc is None:
                 raise Unsupported(f'nonlocal {name} not found')
+            core.foreach_guard(sc._born, f'assignment to the nonlocal {name!r}')
             sc.vars[name] = v
         else:
             env.vars[name] = v
